@@ -21,6 +21,8 @@ import r_shape
 import r_family
 import r_slotmod
 import r_modeflag
+import r_sendrecv
+import r_encadmit
 import r_rngprov
 import r_dispatch
 import r_range
@@ -482,6 +484,7 @@ def c12(facts, tier):
              "from the operand and total_coeff_modulus_bit_count")
     r_guard.check_return_facts(facts, rep, eng, rows, "R-GUARD(encode)")
     rep.floor("R-GUARD(encode)", "encode refusal rows", len(rows), 25)
+    r_encadmit.run(facts, rep, floor=4)
     return rep
 
 
@@ -606,14 +609,22 @@ def c04(facts, tier):
                  "that X -> X^g permutes slots as documented, generator/NAF arithmetic, key-switch noise, plaintext "
                  "preservation under the new key.")
     r_pair.run_c04(facts, rep)
-    n = r_pair.run_table_siblings(facts, rep, lambda p: p.startswith("evaluator::Evaluator::") or p.startswith("key::"))
-    rep.floor("R-PAIR(tables)", "sibling-branch buffers with transforms", n, 1)
+    # one RNS slot is transformed / reduced under one prime by every stage that touches it (R-SLOTMOD subsumes the
+    # earlier sibling-branch rule R-PAIR(tables), which is kept without a floor: hoisting the slot above the branch
+    # leaves it nothing to compare)
+    r_pair.run_table_siblings(facts, rep, lambda p: p.startswith("evaluator::Evaluator::") or p.startswith("key::"))
+    r_slotmod.run(facts, rep, lambda p: p.startswith("evaluator::Evaluator::") or p.startswith("key::"),
+                  floor_sites=6, floor_pairs=10)
     ents = [p for p in api_entries(facts) if any(w in facts.items[p]["name"] for w in
             ("galois", "rotate", "conjugate", "keyswitching", "relinearize"))]
     repstate(facts, rep, ents, 90)
     files = None if tier == "thorough" else {"src/util/galois.rs", "src/evaluator.rs", "src/key.rs"}
     n = r_contra.run_index(facts, rep, files)
     rep.floor("R-CONTRA(index)", "length-guarded index uses", n, 1)
+    # the sign of a rotation step must survive its decomposition (naf): no sign test on an absolute value
+    n = r_contra.run_abs_sign(facts, rep, None if tier == "thorough" else {"src/util/number_theory.rs", "src/util/galois.rs",
+                                                                            "src/evaluator.rs"})
+    rep.floor("R-CONTRA(sign)", "functions taking absolute values", n, 1)
     return rep
 
 
@@ -684,6 +695,7 @@ def c18(facts, tier):
     ents = [p for p in facts.items if p.startswith("multiparty::participant::") and facts.items[p]["vis"] == "pub"
             and facts.items[p].get("impl_self")]
     repstate(facts, rep, ents, 150)
+    r_sendrecv.run(facts, rep, floor=8)
     return rep
 
 
